@@ -25,7 +25,9 @@ pub enum Task {
 }
 
 #[derive(Clone, Debug, Serialize, Deserialize, PartialEq, Eq, Hash)]
-pub enum Sched { Random, Pct(u8) }
+pub enum Sched { Random, Pct(u8),
+    /// depth-first enumeration of every schedule, up to `iterations` executions; fewer executions than the cap = the space was enumerated completely
+    Dfs }
 
 #[derive(Clone, Debug, Serialize, Deserialize, PartialEq, Eq, Hash)]
 pub struct Case {
@@ -86,7 +88,7 @@ fn body(case: &Case) {
 pub struct Failure { pub message: String, pub schedule: Option<String> }
 
 fn run_case(case: &Case, scratch: &Path) -> Result<usize, Failure> {
-    use shuttle::scheduler::{PctScheduler, RandomScheduler, ReplayScheduler};
+    use shuttle::scheduler::{DfsScheduler, PctScheduler, RandomScheduler, ReplayScheduler};
     let dir = scratch.join(format!("sched-{}-{}", std::process::id(), hash64(case)));
     let _ = std::fs::remove_dir_all(&dir);
     std::fs::create_dir_all(&dir).ok();
@@ -102,6 +104,7 @@ fn run_case(case: &Case, scratch: &Path) -> Result<usize, Failure> {
             match case.scheduler {
                 Sched::Random => shuttle::Runner::new(RandomScheduler::new_from_seed(case.sched_seed, case.iterations), config).run(f),
                 Sched::Pct(d) => shuttle::Runner::new(PctScheduler::new_from_seed(case.sched_seed, d.max(1) as usize, case.iterations), config).run(f),
+                Sched::Dfs => shuttle::Runner::new(DfsScheduler::new(Some(case.iterations), false), config).run(f),
             }
         }
     }));
@@ -151,6 +154,23 @@ fn tasks_strategy(n: usize, with_panics: bool) -> impl Strategy<Value = (Vec<Tas
         }
         (tasks, widths)
     })
+}
+
+/// Configurations small enough for a depth-first enumeration of every schedule.
+fn small_configs() -> Vec<(usize, Vec<Task>, Vec<u8>)> {
+    vec![
+        (1, vec![], vec![]),
+        (1, vec![Task::Instant], vec![]),
+        (1, vec![Task::Instant, Task::Instant], vec![]),
+        (1, vec![Task::Rendezvous(0)], vec![1]),
+        (2, vec![], vec![]),
+        (2, vec![Task::Instant], vec![]),
+        (2, vec![Task::Instant, Task::Instant], vec![]),
+        (2, vec![Task::Rendezvous(0), Task::Rendezvous(0)], vec![2]),
+        (2, vec![Task::Long(1), Task::Rendezvous(0)], vec![1]),
+        (3, vec![Task::Instant], vec![]),
+        (3, vec![Task::Rendezvous(0), Task::Rendezvous(0), Task::Rendezvous(0)], vec![3]),
+    ]
 }
 
 fn case_strategy(iterations: usize, with_panics: bool) -> impl Strategy<Value = Case> {
@@ -203,7 +223,7 @@ fn campaign(property: &str, section: &str, cases: u64, iterations: usize, with_p
                     let has_rv = case.tasks.iter().any(|t| matches!(t, Task::Rendezvous(_)));
                     let is_nt = case.n >= 2 && case.tasks.len() >= case.n && has_rv;
                     *st.1.entry(format!("workers-{}", case.n)).or_insert(0) += 1;
-                    *st.1.entry(match case.scheduler { Sched::Random => "scheduler-random".to_string(), Sched::Pct(d) => format!("scheduler-pct-depth-{}", d) }).or_insert(0) += 1;
+                    *st.1.entry(match case.scheduler { Sched::Random => "scheduler-random".to_string(), Sched::Pct(d) => format!("scheduler-pct-depth-{}", d), Sched::Dfs => "scheduler-dfs".to_string() }).or_insert(0) += 1;
                     if has_rv { *st.1.entry("with-rendezvous-group".into()).or_insert(0) += 1; }
                     if case.tasks.iter().any(|t| matches!(t, Task::Panic)) { *st.1.entry("with-panicking-job".into()).or_insert(0) += 1; }
                     if case.tasks.iter().any(|t| matches!(t, Task::Long(40))) { *st.1.entry("long-task-plus-group-of-N-1".into()).or_insert(0) += 1; }
@@ -240,6 +260,40 @@ fn campaign(property: &str, section: &str, cases: u64, iterations: usize, with_p
     }
 }
 
+/// Depth-first enumeration (shuttle's DfsScheduler) of every schedule of the small configurations, shared out over the workers.
+/// A configuration whose enumeration ends below the cap has been decided for *all* its schedules (section schedules-enumerated-completely);
+/// the others contribute a systematic prefix of their schedule tree (section schedules-dfs-prefix).
+fn enumerate_small(property: &str, cap: usize, local: u32, workers: u32, worker: u32, dir: &Path, res: &mut WorkerResult) {
+    let mut k = 0u32;
+    for (n, tasks, widths) in small_configs() {
+        for inter in [false, true] {
+            k += 1;
+            if (k - 1) % workers.max(1) != local { continue; }
+            let case = Case { n, tasks: tasks.clone(), widths: widths.clone(), interleave_submit: inter, scheduler: Sched::Dfs, sched_seed: 0, iterations: cap, schedule: None };
+            let inflight = dir.join(format!("w{}.inflight.json", worker));
+            let _ = std::fs::write(&inflight, serde_json::to_vec(&json!({"section": "schedules-dfs", "case": &case})).unwrap());
+            let t0 = std::time::Instant::now();
+            match run_case(&case, dir) {
+                Ok(executions) => {
+                    let complete = executions < cap;
+                    let section = if complete { "schedules-enumerated-completely" } else { "schedules-dfs-prefix" };
+                    res.evaluations += executions as u64;
+                    *res.sections.entry(section.to_string()).or_insert(0) += executions as u64;
+                    *res.classes.entry(format!("{}:N={},tasks={},interleaved-submit={}", if complete { "every-schedule" } else { "dfs-prefix" }, n, tasks.len(), inter)).or_insert(0) += executions as u64;
+                    if complete && !res.exhaustive_sections.contains(&section.to_string()) { res.exhaustive_sections.push(section.to_string()); }
+                    res.slowest_case_ms = res.slowest_case_ms.max(t0.elapsed().as_millis() as u64);
+                    if res.samples.len() < 8 && complete && !tasks.is_empty() { res.samples.push(json!({"section": section, "class": "every-schedule", "case": &case, "schedules_explored": executions})); }
+                }
+                Err(f) => {
+                    let mut c = case.clone();
+                    c.schedule = f.schedule.clone();
+                    res.violations.push(json!({"property": property, "section": "schedules-dfs", "sig": signature(&f.message), "detail": format!("{} (N={}, {} tasks, depth-first enumeration; the replay file carries shuttle's schedule string)", f.message.lines().next().unwrap_or(""), n, tasks.len()), "case": c}));
+                }
+            }
+        }
+    }
+}
+
 fn main() {
     let args: Vec<String> = std::env::args().collect();
     let cmd = args.get(1).map(|s| s.as_str()).unwrap_or("");
@@ -258,13 +312,32 @@ fn main() {
             let share = |total: u64| total / workers as u64 + if (local as u64) < total % workers as u64 { 1 } else { 0 };
             let iterations = if thorough { 2000 } else { 300 };
             match property.as_str() {
-                "C07" => campaign("C07", "schedules", share(if thorough { 40000 } else { 1600 }), iterations, false, seed, worker, &dir, &mut res, &mut nontrivial),
+                "C07" => {
+                    campaign("C07", "schedules", share(if thorough { 40000 } else { 1600 }), iterations, false, seed, worker, &dir, &mut res, &mut nontrivial);
+                    enumerate_small("C07", if thorough { 3_000_000 } else { 150_000 }, local, workers, worker, &dir, &mut res);
+                }
                 // pool half of C06: scripted job outcomes incl. panics, then the pool must still run full-width groups
                 "C06" => campaign("C06", "pool-under-failing-jobs", share(if thorough { 20000 } else { 800 }), iterations, true, seed, worker, &dir, &mut res, &mut nontrivial),
                 _ => res.inconclusive.push(format!("unknown property {}", property)),
             }
             res.nontrivial_hashes = nontrivial.into_iter().collect();
             std::fs::write(dir.join(format!("w{}.result.json", worker)), serde_json::to_vec(&res).unwrap()).unwrap();
+        }
+        "dfs-probe" => {
+            // rwsv-sched dfs-probe <cap>: size of the schedule space of the small configurations (development aid)
+            let cap: usize = args.get(2).and_then(|s| s.parse().ok()).unwrap_or(100000);
+            let saved = unsafe { extern "C" { fn dup(fd: i32) -> i32; } dup(1) };
+            mute_stdout();
+            use std::io::Write; use std::os::unix::io::FromRawFd;
+            let mut real = unsafe { std::fs::File::from_raw_fd(saved) };
+            for (k, (n, tasks, widths)) in small_configs().into_iter().enumerate() {
+                for inter in [false, true] {
+                    let case = Case { n, tasks: tasks.clone(), widths: widths.clone(), interleave_submit: inter, scheduler: Sched::Dfs, sched_seed: 0, iterations: cap, schedule: None };
+                    let t0 = std::time::Instant::now();
+                    let r = run_case(&case, &std::env::temp_dir());
+                    let _ = writeln!(real, "config {} n={} tasks={:?} interleave={} -> {:?} in {} ms", k, n, tasks, inter, r.as_ref().map_err(|f| f.message.lines().next().unwrap_or("").to_string()), t0.elapsed().as_millis());
+                }
+            }
         }
         "replay-case" => {
             // rwsv-sched replay-case <json file with {section, case}> : prints REPLAY-PASS / REPLAY-FAIL sig=...
